@@ -1,0 +1,33 @@
+//go:build verif
+
+package plugin
+
+// Contracts for govc, the contract verifier under /verif (see /verif/DESIGN.md).
+// Compiled only with -tags verif; comment-only.
+
+//@ define namechar(c) := ((97 <= c && c <= 122) || (65 <= c && c <= 90) || (48 <= c && c <= 57) || c == 43 || c == 45 || c == 46 || c == 95 ? 1 : 0)
+//@ pred validname(s) := len(s) > 0 && (forall j in 0..len(s) :: namechar(at(s, j)) == 1)
+
+//@ func validPluginName(name) (ok)
+//@   loop 1 invariant 0 <= $pos && $pos <= len(name) && (forall j in 0..$pos :: namechar(at(name, j)) == 1)
+//@   loop 1 decreases len(name) - $pos
+//@   ensures#iff ok <==> validname(name)                                                                   [C09 C17]
+//@   modifies nothing
+
+//@ func EncodeIdentity(name, data) (s)
+//@   ensures#valid s != "" ==> validname(name)                                                             [C09 C17]
+//@   call bech32.Encode#1 requires same(arg1, data)                                                        [C09]
+
+//@ func EncodeRecipient(name, data) (s)
+//@   ensures#valid s != "" ==> validname(name)                                                             [C09 C17]
+//@   call bech32.Encode#1 requires same(arg1, data)                                                        [C09]
+
+//@ func ParseIdentity(s) (name, data, err)
+//@   ensures#valid err == nil ==> validname(name)                                                          [C09 C17]
+//@   ensures#nil err != nil ==> name == "" && data == nil                                                  [C09 C14 C17]
+//@   ensures#ascii err == nil ==> (forall j in 0..len(s) :: 33 <= at(s, j) && at(s, j) <= 126)              [C09]
+
+//@ func ParseRecipient(s) (name, data, err)
+//@   ensures#valid err == nil ==> validname(name)                                                          [C09 C17]
+//@   ensures#nil err != nil ==> name == "" && data == nil                                                  [C09 C14 C17]
+//@   ensures#hrp err == nil ==> hasprefix(s, cat("age1", name)) && at(s, 4 + len(name)) == 49               [C09 C17]
